@@ -416,7 +416,8 @@ def topdown_unsat(prog):
         elif isinstance(t, tuple) and t and t[0] == "gamma":
             vm = te._discr_variants.get(t[1]) or {}
             for lab, v in t[2]:
-                names = [vm.get(lab, lab)] if isinstance(lab, str) else []
+                names = [vm.get(lab, lab)] if isinstance(lab, str) else (
+                    [n_ for k_, n_ in vm.items() if k_ not in lab[1]] if isinstance(lab, tuple) and lab and lab[0] == "not" else [])
                 collect(v, pb, conds + [(t[1], names)])
         else:
             facts = list(conds)
